@@ -1351,6 +1351,18 @@ fn gen_d(thorough: bool) -> Vec<DCase> {
         let fb: Vec<String> = (0..12u32).map(|i| hex_le(&((n as f32) * (i as f32 - 5.5) / 7.0).to_bits().to_le_bytes())).collect();
         v.push(anm_case("twelve-floats", &format!("    ins_2034(@blob=\"{}\");", fb.join(" ")), false));
     }
+    // thorough: every f32 pattern 0xHHHH0000 (64 non-NaN patterns per binary; NaN patterns one per binary)
+    if thorough {
+        let mut block: Vec<String> = vec![];
+        for h in 0u32..=0xffff {
+            let bits = h << 16;
+            let line = format!("    ins_2012(@blob=\"{}\");", hex_le(&bits.to_le_bytes()));
+            if f32::from_bits(bits).is_nan() { v.push(anm_case("float-sweep-nan", &line, true)); continue; }
+            block.push(line);
+            if block.len() == 64 { v.push(anm_case("float-sweep", &block.join("\n"), false)); block.clear(); }
+        }
+        if !block.is_empty() { v.push(anm_case("float-sweep", &block.join("\n"), false)); }
+    }
     // ECL (TH08): difficulty switches and difficulty labels produced by the decompiler
     let ecl = |class: &str, body: &str, nan: bool| DCase { class: class.into(), kind: Kind::Ecl, game: "th08", mapfile: ECL_MAP.into(),
         source: format!("script timeline0 {{}}\nvoid sub0() {{\n{body}\n}}\n"), nan, foldable: false };
@@ -1366,7 +1378,7 @@ fn gen_d(thorough: bool) -> Vec<DCase> {
     for (name, op, vals, nan) in &value_sets {
         for holes in 0u32..8 {
             let parts: Vec<String> = (0..4).map(|i| if i > 0 && holes >> (i - 1) & 1 == 1 { String::new() } else { vals[i].to_string() }).collect();
-            v.push(ecl(&format!("ecl-diff-switch:{name}"), &format!("    ins_{op}({});", parts.join(":")), *nan && !(holes & 2 == 2 && true) || (*nan && holes & 2 == 0)));
+            v.push(ecl(&format!("ecl-diff-switch:{name}"), &format!("    ins_{op}({});", parts.join(":")), *nan));
         }
         v.push(ecl(&format!("ecl-diff-switch:{name}"), &format!("    ins_2002(1:2:3:4, 1.0:2.5::, 7:::8);\n    ins_{op}({}:{}:{}:{});\n    ins_{op}({});", vals[0], vals[1], vals[2], vals[3], vals[0]), *nan));
     }
@@ -1510,7 +1522,7 @@ fn run_d(rep: &mut Report, acc: &mut Acc, families: &mut BTreeMap<String, u64>, 
     let dump = std::env::var("C08_DUMP").is_ok();
     let all_widths: Vec<usize> = (1..=200).collect();
     let results = par_map(&cases, Some(deadline), |i, c| {
-        let widths: &[usize] = if thorough && i % 4 == 0 { &all_widths } else { &QUICK_WIDTHS };
+        let widths: &[usize] = if c.class.starts_with("float-sweep") { &[1, 40, 99] } else if thorough && i % 4 == 0 { &all_widths } else { &QUICK_WIDTHS };
         eval_d(c, widths)
     });
     let mut distinct: BTreeSet<String> = BTreeSet::new();
